@@ -32,6 +32,11 @@ type H struct {
 	Panic   string `json:"panic,omitempty"` // "", always, nth
 	N       int    `json:"n,omitempty"`     // nth: panic when handling event N (event ids are 1..Publishes)
 	ValKind string `json:"val,omitempty"`   // string error int struct nilerr
+	// Replay (bus with a store, handler without context): subscribed through
+	// SubscribeWithReplay.  The log is empty then, so it is a live
+	// subscription that also records its position; a panic in it is a
+	// handler panic like any other.
+	Replay bool `json:"replay,omitempty"`
 }
 
 type Case struct {
@@ -237,6 +242,8 @@ func run(c *Case) *vkit.Outcome {
 		var err error
 		if h.Ctx {
 			err = eventbus.SubscribeContext(bus, func(_ context.Context, e Ev) { body(hi, e.ID) }, so...)
+		} else if h.Replay && c.Store {
+			err = eventbus.SubscribeWithReplay(context.Background(), bus, fmt.Sprintf("sub-%d", hi), func(e Ev) { body(hi, e.ID) }, so...)
 		} else {
 			err = eventbus.Subscribe(bus, func(e Ev) { body(hi, e.ID) }, so...)
 		}
